@@ -365,6 +365,11 @@ fn apply(w: &World, hs: &mut BTreeMap<usize, Hnd>, op: &Value) -> Value {
             let h = hs.get_mut(&u(&op[1])).expect("bad op: no such handle");
             json!(tour_mut(h).remove(&w.jobs[u(&op[2])]))
         }
+        "rem_sub" => {
+            let h = hs.get_mut(&u(&op[1])).expect("bad op: no such handle");
+            let key = Job::Single(w.singles[u(&op[2])][u(&op[3])].clone());
+            json!(tour_mut(h).remove(&key))
+        }
         "rem_at" => {
             let h = hs.get_mut(&u(&op[1])).expect("bad op: no such handle");
             let tour = tour_mut(h);
@@ -555,8 +560,15 @@ impl Gen<'_> {
             }
             45..=59 => {
                 let j = if !mid.is_empty() && self.rng.chance(3, 4) { *self.rng.pick(&mid) } else { self.job().0 };
-                self.ops.push(json!(["rem", h, j]));
-                mid.retain(|x| *x != j);
+                if self.job_subs[j] > 1 && self.rng.chance(1, 3) {
+                    // the key is one TASK of a multi job wrapped as a job of its own (`Job::Single(sub)`, an idiom of the code base):
+                    // the tour does not own such a job, nothing may change
+                    let s = self.rng.usize(0, self.job_subs[j] - 1);
+                    self.ops.push(json!(["rem_sub", h, j, s]));
+                } else {
+                    self.ops.push(json!(["rem", h, j]));
+                    mid.retain(|x| *x != j);
+                }
             }
             60..=74 => {
                 let idx = match self.rng.below(8) {
